@@ -5,7 +5,7 @@
    listing order that every processor OBJECT has by C12 (make_desc / load_proc_desc); the harness uses
    wf_domainb to decide whether an implementation-built processor is inside the properties' domain, so a
    change that breaks the listing order is judged by the diagram checkers rather than excused by the guard. *)
-From PS Require Import Base Str Sim Graph Diag LoaderSpec.
+From PS Require Import Base Str Sim Graph Loader Diag LoaderSpec.
 
 Definition wf_domainb (P : proc) : bool :=
   nodupb String.eqb (unit_names P)
@@ -14,3 +14,18 @@ Definition wf_domainb (P : proc) : bool :=
                                   (f_preds f)) (funits P)
   && is_dag (proc_graph P)
   && locks_ok P.
+
+(* C11, as the property states it: the culprit of a duplicate-name rejection is ANY pair of units, the
+   first defined earlier, whose names are equal ignoring case (the loader reports the first such clash in
+   definition order; C11_error_ok demands exactly that, and implies this weaker reading, which is the one
+   applied to implementation outputs). *)
+Fixpoint dup_pair (l : list string) (old new : string) : bool :=
+  match l with
+  | [] => false
+  | x :: t => (String.eqb x old && existsb (String.eqb new) t && ic_eqb old new) || dup_pair t old new
+  end.
+Definition C11_error_okw (d : desc) (e : load_err) : bool :=
+  match e with
+  | EDupUnit old new => dup_pair (d_names d) old new
+  | _ => C11_error_ok d e
+  end.
